@@ -316,6 +316,11 @@ func (x *Exec) mergeStates(conds []string, sts []*State) *State {
 // nameVal gives names to all components of a value (keeps terms small).
 func (x *Exec) nameVal(prefix string, v Val) Val {
 	switch v.K {
+	case KMapView:
+		if v.Map != nil {
+			return v
+		}
+		fallthrough
 	case KScalar, KUnit, KArray, KSlice, KStruct, KTuple, KArrPtr:
 		cs := x.ctx.components(v)
 		ts := make([]string, len(cs))
